@@ -156,7 +156,8 @@ CLAIMS = {
          "supertraits on Self, nothing else), struct_body_delegates_exactly + delegated_types_and_operands (the collected types are exactly the "
          "fields on which the generated PartialEq body calls the trait's own method — two independently written parts linked; the same link for "
          "enum arms eq_tuple_arm_/eq_named_arm_delegates_exactly, for Hash hash_struct_body_/hash_tuple_arm_/hash_named_arm_delegates_exactly and "
-         "for Clone clone_struct_body_delegates_exactly incl. clone_from), "
+         "for Clone clone_struct_body_delegates_exactly incl. clone_from; for Ord / PartialOrd rankLoop_agrees_with_rankFields: the attribute "
+         "layer's ranked field list, from which the predicates are computed, is the behavioural layer's, which the comparison body visits), "
          "ignored_and_method_fields_not_bound, companion_same_predicates / companion_applies_iff (Eq with PartialEq, Copy with Clone share the "
          "primary's predicates). Tie: generic definitions x all traits x ignore/method/expression choices expanded in-process; every real impl's "
          "appended predicates compared with the model's (which handler collects which field types, supertraits, companions).",
